@@ -12,6 +12,7 @@ import re
 
 import text_gen as g
 from markup_util import run_cases, impl_expand, canon_cfg
+import text_tree
 
 HERE = os.path.dirname(os.path.abspath(__file__))
 CORPUS = os.path.join(os.path.dirname(os.path.dirname(HERE)), 'corpus', 'C04')
@@ -221,9 +222,44 @@ def outside_model(cs):
     return any(RE_UNI_TAG.search(x) for x in texts)
 
 
+def tree_tie(ctx, cases):
+    tmodel = ctx.model('text')
+    wires = []
+    trees = []
+    for abbr, cfg, meta in cases:
+        text = cfg.get('text')
+        t = text_tree.impl_tree(abbr, text)
+        trees.append(t)
+        ctx.count_eval()
+        wires.append(text_tree.enc_case(abbr, text))
+        # tree-level oracle: `p{T}` yields the single node p whose value is [unescape T]
+        if meta.get('kind') in ('text', 'exh:text') and abbr.startswith('p{') and abbr.endswith('}'):
+            V = g.unescape(abbr[2:-1])
+            want = ('ok', (('p', (('s', V),) if V else None, None, None, False, ()),))
+            if t != want:
+                ctx.property_failure('C04tree:%s' % abbr, 'C04 abbreviation tree of %r is %r, the statement gives %r' % (abbr, t, want),
+                                     {'abbr': abbr, 'config': cfg, 'meta': meta, 'impl': repr(t)[:500], 'why': 'tree'})
+    dis = 0
+    if tmodel is not None:
+        outs = tmodel.run(wires)
+        for (abbr, cfg, meta), t, w in zip(cases, trees, outs):
+            mo = text_tree.decode_tree(w)
+            if t[0] == 'recursion':
+                continue
+            if mo != t:
+                dis += 1
+                if dis <= 5:
+                    ctx.say('DISAGREE C04tree %r text=%r\n  impl  %r\n  model %r' % (abbr, cfg.get('text'), str(t)[:400], str(mo)[:400]))
+                    ctx.broken.append({'kind': 'correspondence', 'file': 'text-tree', 'input': abbr, 'text': cfg.get('text'),
+                                       'impl': repr(t)[:300], 'model': repr(mo)[:300]})
+    c = ctx.cov['correspondence'].setdefault('abbreviation_tree', {'cases': 0, 'disagreements': 0})
+    c['cases'] += len(wires)
+    c['disagreements'] += dis
+
+
 # ---------------------------------------------------------------- run
 def run(ctx):
-    ok = ctx.build(['props/C04.vo', 'run/MarkupRun.vo'])
+    ok = ctx.build(['props/C04.vo', 'run/MarkupRun.vo', 'run/TextRun.vo'])
     if ok:
         ctx.obligations('props/C04.v')
     model = ctx.model('markup') if ok else None
@@ -271,6 +307,9 @@ def run(ctx):
             c2['text'] = cfg['text']
         second.append((abbr, c2, meta))
     run_cases(ctx, model, second, 'C04fmt', None, mode='expand')
+    # 3. the abbreviation tree itself (tokenize + parse + convert: what C04_text_literal, C04_wrap_* speak about):
+    # implementation vs extracted parse_abbr on every case, plus the tree-level oracle for plain text elements
+    tree_tie(ctx, cases)
     k = 0
     for (abbr, cfg, meta), r in zip(cases, impl):
         if meta.get('pieces') and meta['kind'].startswith(('wrap', 'attr', 'text')) and k < 8 and len(abbr) < 60:
